@@ -394,7 +394,7 @@ func runC11(c *Ctx) {
 			eb := ana.NewBuilder(c.P, encNonce)
 			okE := false
 			for _, ci := range ana.CallsTo(encNonce, "github.com/iotaledger/iota.go/encoding/b1t6.Encode") {
-				_, okE = ana.Match("call<*>(p0, slice(obj(alloc<[8]byte>, call<(encoding/binary.littleEndian).PutUint64>(load(global<encoding/binary.LittleEndian>), slice(self, 0, none), p1)), 0, none))", eb.CallTermAt(ci))
+				_, okE = ana.Match("call<*>(p0, slice(obj(alloc<[8]byte>, call<(encoding/binary.littleEndian).PutUint64>(load(global<encoding/binary.LittleEndian>), slice(self, 0, 8), p1)), 0, none))", eb.CallTermAt(ci))
 			}
 			r.Check(okE, "C11.nonce-layout.encode-nonce", c.P.Pos(encNonce.Pos()), "nonce encoder = b1t6 of the 8 little-endian bytes (48 trits)")
 		}
